@@ -457,7 +457,11 @@ BOUNDED = {
             dict(family="schema2", obligation="to_schema/bounded-standin/schema2.convert_to_schema",
                  known_cases="contracts/known_schema2_cases.txt",
                  what="the ASSUMED recursive entry point convert_to_schema and everything around the functions under contract (semtype_to_runtypes, the memo, to_sem_type reading the result back): every `X op Y` (union, intersection, difference) over 21 small source types (literal sets allowed/excluded over numbers and strings, basic tags, four object atoms, unknown, two differences), 1323 round trips; literal values compared by an independent membership function, object parts by the engine's is_same_type; then the frontend's next step remove_nots_of_intersections_and_empty_of_union is compared with an executable reading of its own comment (empty clauses dropped, Not<> members of the others dropped; emptiness decided by the engine), and its result must contain no Not<> and accept at least the values of the computed type")],
-    "C05": [dict(family="listneg", obligation="list_shape/bounded-standin/listneg.list_is_empty",
+    "C05": [dict(family="front", args_quick=["--cond"], args_thorough=["--cond"],
+                 obligation="frontend/bounded-standin/cond.conditional_type",
+                 known_cases="contracts/known_cond_cases.txt",
+                 what="the property at SOURCE level, through the real frontend (aliases, conditional types, the conversion of named types it builds itself): `type X = V extends B ? 1 : 2` for the literal type V of each of 142 finite values (null, 1, \"a\", lists, linked-list objects) against 56 types over 9 named, possibly recursive definitions; the branch taken is compared with membership of the value in B by recursion on the value (exact in both directions); 7952 questions, those answered with a diagnostic are skipped"),
+            dict(family="listneg", obligation="list_shape/bounded-standin/listneg.list_is_empty",
                  known_cases="contracts/known_listneg_cases.txt",
                  what="list_is_empty / list_inhabited (assumed decider of C05): `a <: b | c` for tuple shapes with prefix <= 2 over {string, number} and an optional rest in {string, number}, against brute force over all lists of length <= 4 over three basic values"),
             dict(family="listneg2", obligation="list_shape/bounded-standin/listneg2.list_is_empty",
